@@ -26,7 +26,8 @@ Tie (this module):
               a stop of any cause consumes the pending step) says on the real trace;
               (5) debugger-side expression evaluation does not interfere: transcript, result/error and FINAL MODULE VALUES equal
               the completely uninstrumented run; always-false conditions give zero stops; conditions on locals stop exactly at
-              the executions where they hold; evaluate(name)/variables() show the local's value, not the shadowed global's.
+              the executions where they hold; evaluate(name)/variables() show the local's value, not the shadowed global's;
+              (6) at every stop inside a def, top_frame() names that def (= the innermost stack_trace() frame).
 The Python functions `py_stops`/`py_exec` below are the specification oracle used for triage."""
 import json
 import os
@@ -494,6 +495,23 @@ def dap_configs(rng, prog):
     ]
 
 
+KEY_TOP_NONE = "top-frame:name-always-none"
+
+
+def top_frame_failure(s):
+    """At a stop inside a def (the stack trace has a function frame above "Root") DapAdapter::top_frame() must name that def:
+    the name of the innermost stack_trace() frame.  -> None | (key, text)."""
+    fr = s.get("frames")
+    if not fr or len(fr) < 2 or "name" not in s:
+        return None
+    inner = fr[0][0]
+    if s["name"] == inner:
+        return None
+    key = KEY_TOP_NONE if s["name"] == "None" else "top-frame:wrong-name"
+    return key, "at the stop on line %s inside def %s (stack %s) top_frame() names the frame %r instead of %r" % (
+        s.get("line"), inner, [f[0] for f in fr], s["name"], inner)
+
+
 def norm_out(o):
     """Outcome of a run, comparable across configurations (the call stack text in `full` is kept: it must not change either)."""
     if o is None:
@@ -614,7 +632,7 @@ def check_programs(ctx, programs, want_model=True, extra_dbg=None):
     failures = []
     extra_dbg = extra_dbg or []
     st = {"programs": len(programs), "eval_runs": 0, "dap_runs": 0, "stops": 0, "events": 0, "vars_compared": 0, "vars_not_shown": 0,
-          "decision_cases": 0, "model_traces": 0, "twice_programs": 0, "failing_programs": 0, "evals": 0, "top_frame_name_none": 0,
+          "decision_cases": 0, "model_traces": 0, "twice_programs": 0, "failing_programs": 0, "evals": 0, "top_frame_name_none": 0, "top_frames_checked": 0,
           "marker_executions": 0, "configs": {}}
     rng = ctx.rng
 
@@ -757,9 +775,15 @@ def check_programs(ctx, programs, want_model=True, extra_dbg=None):
                      "expected %s (breakpoints %s, commands %s)" % (p["id"], name, k, got_stops[k:k + 3], want[k:k + 3], bps, pol),
                      dict(rep, impl_stops=got_stops[:60], spec_stops=want[:60], events=evs0[:200]))
             cfgs_for_coq.append((bps, pol, name, got_stops))
+            tf_reported = False
             for s in stops:
-                if s.get("name") == "None":
-                    st["top_frame_name_none"] += 1
+                tf = top_frame_failure(s)
+                st["top_frames_checked"] += 1 if len(s.get("frames") or []) >= 2 else 0
+                if tf and not tf_reported:
+                    tf_reported = True
+                    if tf[0] == KEY_TOP_NONE:
+                        st["top_frame_name_none"] += 1
+                    fail(tf[0], "%s (%s): %s" % (p["id"], name, tf[1]), dict(rep, stop=s))
                 for e in s.get("evals", []):
                     st["evals"] += 1
                 if s.get("top_frame_error") or s.get("vars_error") or s.get("stack_error"):
@@ -1112,14 +1136,15 @@ def script_sessions(ctx, prog, events, budget, depth_small, depth_big, stats=Non
     used = sum(len(t) for t in trees)
     order = list(range(len(subsets)))
     rng.shuffle(order)
-    for rank, i in enumerate(order):
-        if used >= budget:
-            break
-        d = depth_big if rank < ctx.n(3, 30) else depth_small
-        t = script_tree(events, subsets[i], d)
-        used += len(t) - len(trees[i])
-        trees[i] = t
-        stats["subsets_complete_to_depth_%d" % d] = stats.get("subsets_complete_to_depth_%d" % d, 0) + 1
+    for phase, d, limit in ((0, depth_small, 0.75 * budget), (1, depth_big, budget)):
+        for i in (order if phase == 0 else order[::-1]):
+            if used >= limit:
+                break
+            t = script_tree(events, subsets[i], d)
+            if len(t) > len(trees[i]) or phase == 0:
+                used += len(t) - len(trees[i])
+                trees[i] = t
+                stats["subsets_complete_to_depth_%d" % d] = stats.get("subsets_complete_to_depth_%d" % d, 0) + 1
     sessions = [(b, pol) for b, t in zip(subsets, trees) for pol in t]
     # random long scripts with any tail (the last command repeats)
     for _ in range(ctx.n(40, 400)):
@@ -1141,7 +1166,7 @@ def classify_script_diff(got, want, pol):
 def check_scripts(ctx, progs, budget_per_prog, depth_small, depth_big, sessions_of=None):
     """-> failures, stats, extra_dbg jobs.  sessions_of: {prog id: [(bps, policy)]} for replays."""
     failures = []
-    st = {"script_programs": len(progs), "script_sessions": 0, "script_stops": 0, "script_coq_cases": 0, "script_lengths": {}, "script_trees": {},
+    st = {"script_programs": len(progs), "script_sessions": 0, "script_stops": 0, "script_coq_cases": 0, "script_lengths": {}, "script_trees": {}, "top_frames_checked": 0,
           "script_impl_equals_coq_model": 0,
           "script_sessions_with_breakpoint_hit_during_pending_over_or_out": 0}
 
@@ -1183,6 +1208,12 @@ def check_scripts(ctx, progs, budget_per_prog, depth_small, depth_big, sessions_
                  "without the adapter" % p["id"], rep)
         stops = [s_ for s_ in r.get("stops", []) if "i" in s_]
         st["script_stops"] += len(stops)
+        st["top_frames_checked"] += sum(1 for s_ in stops if len(s_.get("frames") or []) >= 2)
+        for s_ in stops:
+            tf = top_frame_failure(s_)
+            if tf:
+                fail(tf[0], "%s (breakpoints %s, commands %s): %s" % (p["id"], b, pol, tf[1]), dict(rep, stop=s_))
+                break
         got = [(s_.get("line"), (len(s_["frames"]) - 1) if "frames" in s_ else None) for s_ in stops]
         want = py_stops(b, pol, evs)
         if r.get("capped"):
@@ -1538,7 +1569,7 @@ def shadow_sessions(rng, p, execs):
 def check_shadow(ctx, progs):
     failures = []
     st = {"shadow_programs": len(progs), "shadow_sessions": 0, "shadow_stops": 0, "condition_evaluations": 0, "evaluate_compared": 0,
-          "shadow_hazard_programs": 0, "shadow_configs": {}, "finals_compared": 0, "shadow_coq_cases": 0, "shadow_vars_compared": 0}
+          "shadow_hazard_programs": 0, "shadow_configs": {}, "top_frames_checked": 0, "finals_compared": 0, "shadow_coq_cases": 0, "shadow_vars_compared": 0}
 
     def fail(key, what, replay):
         failures.append({"key": key, "what": what, "replay": dict(replay, family="shadow")})
@@ -1597,7 +1628,9 @@ def check_shadow(ctx, progs):
                 key = EVAL_KEY + p["hazard"]
             diff = ""
             if part == "final module values":
-                diff = "; ".join("%s: %s vs %s" % (x[0], x[2], y[2]) for x, y in zip(got[2] or [], b[2] or []) if x != y)[:300]
+                gd, bd = {x[0]: x[2] for x in got[2] or []}, {x[0]: x[2] for x in b[2] or []}
+                diff = "; ".join("%s = %s (uninstrumented: %s)" % (n_, gd.get(n_, "<no such name>"), bd.get(n_, "<no such name>"))
+                                 for n_ in sorted(set(gd) | set(bd)) if gd.get(n_, "?") != bd.get(n_, "?"))[:400]
             fail(key, "%s (%s; breakpoints %s; conditions %s; evaluate %s): the debugger-side expression evaluation changes the program: %s "
                  "differs from the uninstrumented run: %s %s | uninstrumented %s"
                  % (p["id"], name, exp["bps"], list(exp["conds"].values()), exp["evals"][:4], part, diff, str(got[:2])[:300], str(b[:2])[:300]),
@@ -1611,6 +1644,12 @@ def check_shadow(ctx, progs):
         # ---- stops = decision function with the conditions' truth values
         stops = [s_ for s_ in r.get("stops", []) if "i" in s_]
         st["shadow_stops"] += len(stops)
+        st["top_frames_checked"] += sum(1 for s_ in stops if len(s_.get("frames") or []) >= 2)
+        for s_ in stops:
+            tf = top_frame_failure(s_)
+            if tf:
+                fail(tf[0], "%s (%s): %s" % (p["id"], name, tf[1]), dict(rep, stop=s_))
+                break
         got_stops = [((s_.get("line") or 0) + (LIB_OFF if s_.get("file") == LIB else 0)) for s_ in stops]
         want = py_stops(exp["pred"], exp["policy"], evs)
         if r.get("capped"):
@@ -1726,9 +1765,6 @@ def correspond(ctx):
     ctx.log("programs=%d eval_runs=%d dap_runs=%d stops=%d events=%d decision_cases=%d model_traces=%d vars=%d failing=%d failures=%d"
             % (st["programs"], st["eval_runs"], st["dap_runs"], st["stops"], st["events"], st["decision_cases"], st["model_traces"],
                st["vars_compared"], st["failing_programs"], len(failures)))
-    if st["top_frame_name_none"]:
-        ctx.log("NOTE DapAdapter::top_frame() named the frame \"None\" at %d stops (CheapCallStack::top_frame reads the last slot of the "
-                "stack array instead of the top entry); stack_trace() names are right" % st["top_frame_name_none"])
     cov = {
         "evaluations": st["eval_runs"] + st["dap_runs"] + len(programs) + st_s["script_sessions"] + st_s["script_programs"]
                        + st_c["shadow_sessions"] + 2 * st_c["shadow_programs"],
@@ -1753,6 +1789,7 @@ def correspond(ctx):
         "failing_programs": st["failing_programs"],
         "programs_with_module_level_double_events": st["twice_programs"],
         "top_frame_named_None": st["top_frame_name_none"],
+        "top_frame_names_checked_against_stack_trace": st["top_frames_checked"] + st_s["top_frames_checked"] + st_c["top_frames_checked"],
         "debugger_configurations": st["configs"],
         "mixed_command_scripts": st_s,
         "expression_evaluation_under_shadowing": st_c,
